@@ -68,6 +68,14 @@ def rand_scalar(rng):
         body = {"r": "class", "neg": False, "items": [{"ci": "range", "lo": A, "hi": C}]}
         s["pattern"] = [{"k": "pat", "rx": {"r": "rep", "body": body, "lo": rng.randrange(3),
                                             "hi": rng.choice([-1, 3]), "lazy": False}}]
+        if rng.random() < 0.5:
+            # a random program of the supported regex grammar (the constructors of spec/MC_Regex.tla)
+            from . import c09
+            for _ in range(20):
+                rx = c09.rand_rx(rng, rng.randrange(1, 5))
+                if rx is not None and not _has_uns(rx) and c09.worst_len(rx, 32) <= 70:
+                    s["pattern"] = [{"k": "pat", "rx": rx}]
+                    break
         return s
     if rng.random() < 0.5:
         s["alphabet"] = [VStr([A, B, C][: rng.randrange(1, 4)])]
@@ -85,6 +93,19 @@ def rand_scalar(rng):
         s["min_len"] = [VInt(n)]
         s["max_len"] = [VInt(n + rng.randrange(0, 4))]
     return s
+
+
+def _has_uns(rx):
+    k = rx["r"]
+    if k == "uns":
+        return True
+    if k in ("group", "rep"):
+        return _has_uns(rx["body"])
+    if k == "alt":
+        return any(_has_uns(x) for x in rx["alts"])
+    if k == "seq":
+        return any(_has_uns(x) for x in rx["parts"])
+    return False
 
 
 def rand_schema(rng, depth):
